@@ -12,10 +12,12 @@ import MellonDriver.Inference
 import MellonDriver.Optimize
 import MellonDriver.Serial
 import MellonDriver.Persist
+import MellonDriver.TimeArgs
+import MellonDriver.TimeNN
 open Mellon Drv
 
 /-- All handlers, tried in order. -/
-def handlers : List Handler := [handleKernel, handleCond, handleDecomp, handleRank, handleParams, handleInference, handleOptimize, handleSerial, handlePersist]
+def handlers : List Handler := [handleKernel, handleCond, handleDecomp, handleRank, handleParams, handleInference, handleOptimize, handleSerial, handlePersist, handleTimeArgs, handleTimeNN]
 
 def handle : P String := do
   let op ← tok
